@@ -378,10 +378,10 @@ def pythify(rng, line):
 
 # ------------------------------------------------------------------------------------------------
 # C05 scenarios
-# Retagging a Fixed / Pyth bank as a venue bank (op 23) is refused by the real risk engine: a venue bank must come with its
-# venue oracle set-up and reserve account (WrongNumberOfOracleAccounts). Until the `risk` fixture builds Drift banks with a
-# spot-market account, the scenario is switched off (see DESIGN.md, seed C05i).
-VENUE_COLLATERAL = False
+# Retagging a bank as a venue bank (op 23) works for FIXED-price banks only: with any other oracle set-up the real risk engine
+# expects the venue's reserve / spot-market account next to the oracle (WrongNumberOfOracleAccounts); the `risk` fixture does not
+# build those, so the scenario is restricted to collateral banks with a Fixed price.
+VENUE_COLLATERAL = True
 
 
 def gen_liq_case(rng, dist, reduce_only_asset=False):
@@ -489,7 +489,7 @@ def gen_liq_case(rng, dist, reduce_only_asset=False):
         ops.append([22, ab, 2])
         pred.banks[ab]["op_state"] = 2
     tag0 = banks[ab]["tag"]
-    if VENUE_COLLATERAL and not reduce_only_asset and tag0 == 0 and rng.random() < 0.15:
+    if VENUE_COLLATERAL and not reduce_only_asset and tag0 == 0 and orcs[ab] is None and rng.random() < 0.3:
         # the collateral sits in a bank of a third-party venue (Kamino 3, Drift 4, Solend 5; Drift balances are 9-decimal
         # scaled units whatever the mint's decimals): valuation and the liquidation quantities must use the bank's BALANCE decimals
         vt = rng.choice([4, 4, 4, 3, 5])
